@@ -8,8 +8,8 @@ BOTH_Q = [{"flavor": "debug", "shards": 4}, {"flavor": "release", "shards": 4}]
 MIRI_Q = [{"flavor": "miri", "shards": 1, "extra": {"histories": 2, "len": 12}, "tag": "miri-slice", "timeout": 1500}]
 MIRI_T = [{"flavor": "miri", "shards": 12, "extra": {"histories": 4, "len": 30}, "tag": "miri", "timeout": 6000}]
 VALGRIND_Q = [{"flavor": "valgrind", "shards": 2, "scale": 0.03, "extra": {"impl": "mapped"}, "tag": "memcheck"}]
-VALGRIND_T = [{"flavor": "valgrind", "shards": 4, "scale": 0.004, "extra": {"impl": "mapped"}, "tag": "memcheck"}, {"flavor": "valgrind", "shards": 4, "scale": 0.004, "extra": {"impl": "offset"}, "tag": "memcheck"}]
-ASAN_T = [{"flavor": "asan", "shards": 4, "scale": 0.05, "extra": {"impl": "mapped"}, "tag": "asan"}, {"flavor": "asan", "shards": 4, "scale": 0.05, "extra": {"impl": "offset"}, "tag": "asan"}]
+VALGRIND_T = [{"flavor": "valgrind", "shards": 4, "scale": 0.002, "extra": {"impl": "mapped"}, "tag": "memcheck"}, {"flavor": "valgrind", "shards": 4, "scale": 0.002, "extra": {"impl": "offset"}, "tag": "memcheck"}]
+ASAN_T = [{"flavor": "asan", "shards": 4, "scale": 0.015, "extra": {"impl": "mapped"}, "tag": "asan"}, {"flavor": "asan", "shards": 4, "scale": 0.015, "extra": {"impl": "offset"}, "tag": "asan"}]
 BOTH_T = [{"flavor": "debug", "shards": 8}, {"flavor": "release", "shards": 8}]
 
 COMMON_ASSUME = [
